@@ -122,7 +122,14 @@ extern "C" void h_connect(void) {
       else { vk_assert(w.pk[b].len == x->first_len, "CONNECT of a later attempt differs from the first one"); for (uint32_t i = 0; i < x->first_len; i++) vk_assert(w.rx[w.pk[b].off + i] == x->first[i], "CONNECT of a later attempt differs from the first one"); vk_reach("connect-repeated"); }
       vk_assert(!vk::pending_write(), "something was written before CONNACK");
       vk::timer_rec* ct = vk::world().timers[1];
-      if (outcome == 0) { w.send_connack(vk_choose(2), 0, nullptr, 0); w.feed_all(); vk::drain(); up = true; break; }
+      if (outcome == 0) {
+        // a successful CONNACK may carry values that override the client's for THIS connection (Server Keep Alive, Assigned Client
+        // Identifier, Session Expiry): the configuration used for the next CONNECT must not change
+        static const uint8_t overrides[] = {0x13, 0x00, 0x1E, 0x12, 0x00, 0x02, 'z', 'z', 0x11, 0x00, 0x00, 0x00, 0x05};
+        bool ov = vk_choose(2); w.send_connack(vk_choose(2), 0, ov ? overrides : nullptr, ov ? sizeof overrides : 0); w.feed_all(); vk::drain(); up = true;
+        if (ov) vk_reach("connack-with-overrides");
+        break;
+      }
       if (outcome == 2) { uint8_t rc = vk_choose(2) ? 0x87 : 0x9F; w.send_connack(false, rc, nullptr, 0); w.feed_all(); vk::drain(); vk_reach("connack-refused"); }
       else if (outcome == 3) {
         // a reply that is not a well-formed successful CONNACK (arbitrary reply bytes are explored by h_hostile_handshake)
